@@ -4,6 +4,7 @@
 //! never reported as proved.
 use serde_json::{json, Value};
 
+pub mod auth;
 pub mod cjson;
 pub mod hashes;
 pub mod pushcond;
@@ -34,6 +35,7 @@ pub fn run(name: &str, tier: &str) -> Option<Value> {
         "redact" => redact::run(tier).to_json(),
         "pushcond" => pushcond::run(tier).to_json(),
         "cjson" => cjson::run(tier).to_json(),
+        "auth" => auth::run(tier).to_json(),
         "hashes" => hashes::run(tier).to_json(),
         "xmatrix" => xmatrix::run(tier).to_json(),
         "sign" => sign::run(tier).to_json(),
